@@ -45,8 +45,8 @@ def padU(U, n):
 def judge(case_ops, n, circ, dec):
     """returns None if dec acts like circ up to one global phase; else (msg, sig, expected, observed)"""
     U = padU(num(circ.to_unitary()), n)
-    if dec.n_qubits > n:
-        return ("decomposed circuit is wider than the original", "width", n, dec.n_qubits)
+    if dec.n_qubits != circ.n_qubits:
+        return ("decomposed circuit acts on a register of another width than the original (idle qubits are part of the circuit)", "width", circ.n_qubits, dec.n_qubits)
     V = padU(num(dec.to_unitary()), n)
     Wm = U @ V.conj().T
     if L.is_global_phase_of_identity(Wm, 1e-8):
@@ -168,7 +168,81 @@ def rules_case(case):
             "sig": "rules:order"}
 
 
-FUNCS = {"special_angles": grid_case, "grid": grid_case, "circuits": circuit_case, "rules": rules_case}
+def _rule_objects():
+    from orquestra.quantum import circuits as C
+    from orquestra.quantum.decompositions import U3GateToRotation
+
+    class A:   # X -> Y
+        def predicate(self, op): return op.gate.name == "X"
+        def production(self, op): return [C.Y(*op.qubit_indices)]
+
+    class B:   # Y -> Z, Z   (a generator: a production is any iterable)
+        def predicate(self, op): return op.gate.name == "Y"
+        def production(self, op): return (g(*op.qubit_indices) for g in (C.Z, C.Z))
+
+    class Hr:  # H -> U3(pi/2, 0, pi)  (equal to H up to a global phase): its output is only matched by the U3 rule
+        def predicate(self, op): return op.gate.name == "H"
+        def production(self, op): return [C.U3(np.pi / 2, 0.0, np.pi)(*op.qubit_indices)]
+
+    class Zt:  # Z -> T, T, T, T
+        def predicate(self, op): return op.gate.name == "Z"
+        def production(self, op): return tuple(C.T(*op.qubit_indices) for _ in range(4))
+    return {"A": A(), "B": B(), "H": Hr(), "Z": Zt(), "U3": U3GateToRotation()}
+
+
+RULE_CIRCUITS = [
+    {"ops": [{"gate": G("X"), "q": [0]}, {"gate": G("T"), "q": [0]}], "n": 1},
+    {"ops": [{"gate": G("H"), "q": [1]}, {"gate": G("CNOT"), "q": [1, 0]}], "n": 2},
+    {"ops": [{"gate": G("Y"), "q": [1]}, {"gate": G("X"), "q": [0]}, {"gate": G("H"), "q": [0]}], "n": 3},        # idle qubit 2
+    {"ops": [{"gate": G("T"), "q": [0]}, {"gate": G("U3", 0.3, 0.4, -0.4), "q": [1]}, {"gate": G("X"), "q": [1]}, {"gate": G("Z"), "q": [0]}], "n": 2},
+    {"ops": [{"gate": G("T"), "q": [1]}, {"gate": G("CNOT"), "q": [0, 1]}], "n": 4},                             # nothing matches, idle qubits 2, 3
+    {"ops": [], "n": 2},
+]
+
+
+def rule_lists_case(case):
+    """{'circ': index, 'rules': [names], 'entry': how the operations are handed over}: the result is the sequential application of the rules in the
+    order given, each to the output of the previous one (reference: plain list rewriting with the same rule objects' predicate/production on FRESH objects)"""
+    from orquestra.quantum import circuits as C
+    from orquestra.quantum.decompositions import decompose_orquestra_circuit, decompose_operations
+    cd = RULE_CIRCUITS[case["circ"]]
+    circ = mk_circuit(cd)
+    before = [o for o in circ.operations]
+    R, Rref = _rule_objects(), _rule_objects()
+    rules = [R[nm] for nm in case["rules"]]
+    entry = case["entry"]
+    if entry == "circuit":
+        out = decompose_orquestra_circuit(circ, rules)
+        got_ops = list(out.operations)
+        if out.n_qubits != circ.n_qubits:
+            return {"ok": False, "msg": "decomposed circuit has width %d, the original %d (rules %s)" % (out.n_qubits, circ.n_qubits, case["rules"]), "sig": "rule-lists:width"}
+        if not rules and not (out == circ):
+            return {"ok": False, "msg": "empty rule list: the returned circuit is not equal to the original", "sig": "rule-lists:empty"}
+    else:
+        src = {"list": lambda: list(circ.operations), "tuple": lambda: tuple(circ.operations), "iter": lambda: iter(list(circ.operations)),
+               "gen": lambda: (o for o in circ.operations)}[entry]()
+        got_ops = list(decompose_operations(src, rules))
+    exp = list(circ.operations)
+    for nm in case["rules"]:
+        nxt = []
+        for o in exp:
+            nxt += list(Rref[nm].production(o)) if Rref[nm].predicate(o) else [o]
+        exp = nxt
+    sig_of = lambda o: (o.gate.name, tuple(o.qubit_indices), tuple(round(float(p), 9) for p in o.gate.params), getattr(getattr(o.gate, "wrapped_gate", None), "name", None))  # noqa: E731
+    if [sig_of(o) for o in got_ops] != [sig_of(o) for o in exp]:
+        return {"ok": False, "msg": "rules %s via %s: result is not the rules applied in the order given, each to the output of the previous one" % (case["rules"], entry),
+                "expected": str([str(o) for o in exp]), "observed": str([str(o) for o in got_ops]), "sig": "rule-lists:order"}
+    # operations that no rule ever touched are the same objects
+    untouched = [o for o in before if not any(Rref[nm].predicate(o) for nm in case["rules"])]
+    kept = [o for o in got_ops if any(o is u for u in untouched)]
+    if len(kept) != len(untouched) or any(a is not b for a, b in zip(kept, untouched)):
+        return {"ok": False, "msg": "operations no rule applies to are not kept (same objects, same order)", "sig": "rule-lists:unmatched"}
+    if list(circ.operations) != before:
+        return {"ok": False, "msg": "decomposition modified the input circuit", "sig": "rule-lists:mutated"}
+    return {"ok": True, "nt": len(case["rules"]) >= 2, "ops": 1, "out": entry}
+
+
+FUNCS = {"rule_lists": rule_lists_case, "special_angles": grid_case, "grid": grid_case, "circuits": circuit_case, "circuits_idle": circuit_case, "rules": rules_case}
 
 
 def partner_ops(n):
@@ -221,4 +295,15 @@ def run(run):
     cc.append({"ops": [{"gate": W("dagger", G("U3", 0.3, 0.4, 0.5)), "q": [0]}, {"gate": W("power", G("U3", 0.3, 0.4, 0.5), e=2), "q": [1]}], "n": 2})
     secs.append(Section("circuits", cc, circuit_case, horizon=900, desc="every placement x angle triples; length-2 circuits with unmatched partner operations in both orders"))
     secs.append(Section("rules", [{"kind": k} for k in ("empty", "AB", "BA", "U3U3", "A,U3,B", "ops")], rules_case, desc="empty rule list, rule order, idempotence"))
+    names = ["A", "B", "H", "Z", "U3"]
+    rl = [[]] + [list(p) for k in (1, 2, 3) for p in itertools.permutations(names, k)]
+    if thorough:
+        rl += [list(p) for p in itertools.permutations(names, 4)] + [[a, a] for a in names] + [[a, b, a] for a in names for b in names if a != b]
+    rc = [{"circ": ci, "rules": r, "entry": e} for ci in range(len(RULE_CIRCUITS)) for r in rl for e in ("circuit", "list", "tuple", "iter", "gen")]
+    secs.append(Section("rule_lists", rc, rule_lists_case, horizon=300, desc="every ordered list of <= 3 distinct rules out of 5 (X->Y, Y->ZZ, H->U3, Z->TTTT, U3->rotations) x 6 circuits (idle qubits, "
+                        "empty) x 5 ways of handing the operations over (circuit, list, tuple, one-shot iterator, generator)"))
+    # circuits with idle qubits (declared width larger than the highest used index + 1)
+    cc2 = [{"ops": [{"gate": u3_gate(kind, tri[0]), "q": list(range(kind + 1))[::-1]}], "n": kind + 1 + extra} for kind in (0, 1) for extra in (1, 2)]
+    cc2 += [{"ops": [{"gate": G("T"), "q": [0]}], "n": 3}, {"ops": [], "n": 2}]
+    secs.append(Section("circuits_idle", cc2, circuit_case, horizon=300, desc="circuits with idle trailing qubits: the decomposed circuit keeps the register"))
     run.run_sections(secs)
